@@ -43,6 +43,8 @@ func checkC06(c *Ctx) {
 	c.Rule("R6.10", "a checked entry created by AddCore / After for an entry no core had accepted yet carries that entry (the default Panic action panics with its message, hooks receive it)", 2)
 	c6FreshEntryCarriesEntry(c, "R6.10")
 	c.Rule("R6.4", "ioCore.Write syncs after the write for DPanic/Panic/Fatal; BufferedWriteSyncer.Sync always syncs the sink", 4)
+	c.Rule("R6.13", "CheckedEntry.After installs the hook it is given unconditionally (the Logger's terminal action is registered last and replaces any hook a core registered)", 1)
+	c6AfterInstalls(c, "R6.13")
 	c.Rule("R6.5", "default actions: panic(message) / exit.With(1) -> os.Exit / Goexit; exit function only written by the stub helpers, which non-test code never calls", 5)
 	c.Rule("R6.7", "Config wires development mode (DPanic panics) exactly under Config.Development", 1)
 	if g, pos, ok := ConfigOptionGuards(c, "Development"); ok {
